@@ -205,10 +205,15 @@ func (r *Remote) receive(ctx context.Context, ID json.RawMessage) (*Message, err
 
 // Call handles sending an RPC and receiving the corresponding response synchronously.
 func (r *Remote) Call(ctx context.Context, result interface{}, method string, params ...interface{}) error {
+	// Concurrent first calls must end up with the same client, two clients
+	// would hand out the same request IDs.
+	r.mu.Lock()
 	if r.Client == nil {
 		r.Client = &Client{}
 	}
-	req, err := r.Client.Request(method, params...)
+	client := r.Client
+	r.mu.Unlock()
+	req, err := client.Request(method, params...)
 	if err != nil {
 		return err
 	}
